@@ -43,38 +43,40 @@ def parseTab (gs : List (List String)) : Option Tab :=
 
 def showRes (r : Str × Bool) : String := (if r.2 then "ok " else "err ") ++ hexRunes r.1
 
-/-- one call on code-point arguments -/
-def handleCall (P : Prims) (call : List String) : String :=
+/-- the call an op spells (function name + code-point arguments) -/
+def parseCall (call : List String) : Option Call :=
   match call with
-  | ["split", a] => match unhexRunes? a with
-    | some a => match split a with
-      | .ok (m, d) => s!"ok {hexRunes m} {hexRunes d}"
-      | .error _ => "err"
-    | none => "bad-op"
-  | ["unquote", m] => match unhexRunes? m with
-    | some m => match unquoteMbox m with
-      | .ok r => "ok " ++ hexRunes r
-      | .error _ => "err"
-    | none => "bad-op"
-  | ["quote", m] => match unhexRunes? m with
-    | some m => hexRunes (quoteMbox m)
-    | none => "bad-op"
-  | ["isascii", s] => match unhexRunes? s with
-    | some s => if isASCII s then "1" else "0"
-    | none => "bad-op"
-  | ["toascii", a] => (unhexRunes? a).elim "bad-op" (fun a => showRes (toASCII P a))
-  | ["tounicode", a] => (unhexRunes? a).elim "bad-op" (fun a => showRes (toUnicode P a))
-  | ["forlookup", a] => (unhexRunes? a).elim "bad-op" (fun a => showRes (forLookup P a))
-  | ["cleandomain", a] => (unhexRunes? a).elim "bad-op" (fun a => showRes (cleanDomain P a))
-  | ["dnsforlookup", a] => (unhexRunes? a).elim "bad-op" (fun a => showRes (dnsForLookup P a))
-  | ["valid", a] => (unhexRunes? a).elim "bad-op" (fun a => if valid P a then "1" else "0")
-  | ["equal", a, b] => match unhexRunes? a, unhexRunes? b with
-    | some a, some b => if equal P a b then "1" else "0"
-    | _, _ => "bad-op"
-  | ["dnsequal", a, b] => match unhexRunes? a, unhexRunes? b with
-    | some a, some b => if dnsEqual P a b then "1" else "0"
-    | _, _ => "bad-op"
-  | _ => "bad-op"
+  | [fn, a] => do
+    let a ← unhexRunes? a
+    match fn with
+    | "split" => some (.split a) | "unquote" => some (.unquote a) | "quote" => some (.quote a)
+    | "isascii" => some (.isascii a) | "validmbox" => some (.validmbox a) | "toascii" => some (.toascii a)
+    | "tounicode" => some (.tounicode a) | "forlookup" => some (.forlookup a) | "cleandomain" => some (.cleandomain a)
+    | "valid" => some (.valid a) | "dnsforlookup" => some (.dnsforlookup a) | "dnstounicode" => some (.dnstounicode a)
+    | "validdomain" => some (.validdomain a)
+    | _ => none
+  | [fn, a, b] => do
+    let a ← unhexRunes? a
+    let b ← unhexRunes? b
+    match fn with
+    | "equal" => some (.equal a b) | "dnsequal" => some (.dnsequal a b)
+    | _ => none
+  | _ => none
+
+/-- canonical observation of an outcome; the harness prints `panic` for a call of the real code that crashed -/
+def showOutcome : Outcome → String
+  | .str s => hexRunes s
+  | .flag b => if b then "1" else "0"
+  | .res s ok => showRes (s, ok)
+  | .parts m d => s!"ok {hexRunes m} {hexRunes d}"
+  | .err => "err"
+  | .panic => "panic"
+
+/-- one call on code-point arguments: the model's `run` (never `panic`: `C17_no_panic`) -/
+def handleCall (P : Prims) (call : List String) : String :=
+  match parseCall call with
+  | some c => showOutcome (run P c)
+  | none => "bad-op"
 
 /-- `C17 <fn> <code points>… | table` or, for arguments that are arbitrary BYTE strings (invalid UTF-8
 included), `C17 b <fn> <hex bytes>… | table`: the bytes are decoded the way Go's `range` does
